@@ -1,3 +1,4 @@
 //! In-crate Kani harnesses for tower-resilience-circuitbreaker.
 pub mod env;
 pub mod svc;
+pub mod c04b;
